@@ -37,6 +37,7 @@ type Config struct {
 	MaxViolations int
 	Concrete      map[string]uint64 // when non-nil: run one concrete path with these inputs
 	Tier          string
+	DropGo        map[string]bool // functions whose `go` statements are not modelled (background workers driven explicitly by the harness)
 	KnownActive   map[string]bool // known-finding class ids that are active (status "known")
 }
 
